@@ -1,5 +1,6 @@
 -- GENERATED: axiom audit for Props/C16*.lean
 import Props.C16_hier
+import Props.C16_history
 import Props.C16_xml
 #print axioms SpyneModel.Props.C16hier.facts02_rt
 #print axioms SpyneModel.Props.C16hier.ctx
@@ -8,6 +9,9 @@ import Props.C16_xml
 #print axioms SpyneModel.Props.C16hier.poly_array_roundtrip
 #print axioms SpyneModel.Props.C16hier.nonpoly_declared_fields_only
 #print axioms SpyneModel.Props.C16hier.subclass_members_written_in_order
+#print axioms SpyneModel.Props.C16history.flat_info_after_append
+#print axioms SpyneModel.Props.C16history.flat_info_after_insert
+#print axioms SpyneModel.Props.C16history.use_keeps_flat_info
 #print axioms SpyneModel.Props.C16xml.poly_roundtrip
 #print axioms SpyneModel.Props.C16xml.poly_roundtrip_soft
 #print axioms SpyneModel.Props.C16xml.poly_keeps_class
